@@ -82,6 +82,73 @@ def requests_for(r, group, n, dbg, storages=("o",), norm="valid", ops=None):
     return out
 
 
+T_VALUES = [0.0, 1.0, 0.5, 0.25, 1e-9, 1 - 1e-9, -0.1, 1.5, -1e-300, 1.0000000000000002, float("nan")]
+
+
+def small_tangent(r, group, radius):
+    g = gen.GROUPS[group]
+    out = []
+    for kind, n in g["tan"]:
+        m = radius * r.random()
+        d, _ = gen.direction(r, n if kind != "ang1" else 1)
+        out += [m * x for x in d]
+    return out
+
+
+def make_points(exe, r, group, count, radius, dbg=True, lin_only=("zero", "unit", "large")):
+    """a cloud of `count` valid elements within geodesic radius `radius` of a random centre,
+    produced by the implementation itself (X.rplus(delta)); -> (centre, points, tags)"""
+    X, tags = gen.element(r, group, norm="exact", lin_only=list(lin_only))
+    lines = [gen.req(dbg, "o", group, "rplus", 0, X + small_tangent(r, group, radius)) for _ in range(count)]
+    rc, out, err = vlib.run_lines(exe, lines)
+    pts = []
+    for o in out:
+        t = o.split()
+        if t[0] != "ok":
+            raise RuntimeError("pre-stage rplus failed: " + o)
+        pts.append([gen.of_hex(x) for x in t[1:]])
+    return X, pts, tags
+
+
+def algo_requests(exe, r, group, n, dbg, ops=("interp_slerp", "interp_cubic", "interp_smooth", "phi", "avg_bi", "avg_w", "avg_fl", "avg_fr", "decasteljau")):
+    out = []
+    G = gen.GROUPS[group]
+    for op in ops:
+        for _ in range(n):
+            if op == "phi":
+                t = r.choice(T_VALUES + [r.random() for _ in range(6)])
+                m = r.choice([1, 2, 3, 4, 0, 5, -1, 9])
+                out.append((gen.req(dbg, "o", group, op, 0, [t], [m]), [op, "m%d" % m, "t:%r" % (t if t in T_VALUES else "rand")]))
+            elif op.startswith("interp"):
+                A, ta_ = gen.element(r, group, norm="exact", lin_only=["zero", "unit", "large"])
+                B, tb_ = gen.element(r, group, norm="exact", lin_only=["zero", "unit", "large"])
+                t = r.choice(T_VALUES + [r.random() for _ in range(8)])
+                tag_t = "t:%r" % (t if t in T_VALUES else "rand")
+                if op == "interp_slerp":
+                    out.append((gen.req(dbg, "o", group, op, 0, A + B + [t]), [op, tag_t] + ta_ + tb_))
+                else:
+                    va = small_tangent(r, group, r.choice([0.0, 0.3, 2.0]))
+                    vb = small_tangent(r, group, r.choice([0.0, 0.3, 2.0]))
+                    ints = [r.choice([1, 2, 3, 4, 3, 3, 0, 5, -1])] if op == "interp_smooth" else []
+                    out.append((gen.req(dbg, "o", group, op, 0, A + B + [t] + va + vb, ints), [op, tag_t] + (["m%d" % ints[0]] if ints else []) + ta_ + tb_))
+            elif op.startswith("avg"):
+                cnt = r.choice([0, 1, 2, 3, 5, 8])
+                X, pts, tags = make_points(exe, r, group, cnt, r.choice([0.0, 1e-9, 0.1, 0.5]), dbg) if cnt else (None, [], [])
+                eps = r.choice([gen.EPS, gen.EPS, 1e-10, 1e-20])
+                mi = r.choice([20, 20, 1, 0, 3])
+                out.append((gen.req(dbg, "o", group, op, 0, [eps] + [c for p in pts for c in p], [mi]), [op, "n%d" % cnt, "it%d" % mi] + tags))
+            elif op == "decasteljau":
+                N = r.choice([0, 1, 2, 3, 4, 5, 6, 7, 9])
+                d = r.choice([2, 2, 3, 3, 4, N, N + 1, max(2, N - 1)])
+                k = r.choice([1, 2, 3, 0])
+                cl = r.choice([0, 1])
+                if d < 2:
+                    d = 2
+                X, pts, tags = make_points(exe, r, group, N, 0.8, dbg) if N else (None, [], [])
+                out.append((gen.req(dbg, "o", group, op, 0, [c for p in pts for c in p], [d, k, cl]), [op, "N%d" % N, "d%d" % d, "k%d" % k, "cl%d" % cl] + tags))
+    return out
+
+
 def same(a, b):
     """bit equality with ±0 and NaN identified"""
     if a == b:
@@ -95,6 +162,8 @@ def same(a, b):
 # relative to the largest entry of the output instead of bit for bit.  Everything else is exact.
 TOL_CELLS = {("SE_2_3", "lplus"), ("SE_2_3", "lminus"), ("SGal3", "lplus"), ("SGal3", "lminus"),
              ("SE_2_3", "bracket"), ("SE_2_3", "inner"), ("SE_2_3", "sqwnorm"), ("SE_2_3", "wnorm"),
+             ("SE_2_3", "avg_w"), ("SE_2_3", "avg_fl"), ("SE_2_3", "avg_fr"),
+             ("SGal3", "avg_w"), ("SGal3", "avg_fl"), ("SGal3", "avg_fr"),
              ("SGal3", "bracket"), ("SGal3", "inner"), ("SGal3", "sqwnorm"), ("SGal3", "wnorm")}
 TOL_REL = 1e-12
 
